@@ -91,12 +91,15 @@ func forceOneLine(rd *Rendered, node any) bool {
 func c12Filler(rng *rand.Rand, tag string) []any {
 	var out []any
 	for i := rng.IntN(4); i > 0; i-- {
-		switch rng.IntN(3) {
+		switch rng.IntN(4) {
 		case 0:
 			out = append(out, &Func{Name: fmt.Sprintf("fill%s%d", tag, i), Params: []string{"fa"}, Body: Blk(
 				asg(V("fl"), Bin("+", V("fa"), N("1"))), &If{C: Bin(">", V("fl"), N("2")), Then: Blk(&Return{X: S("é日本")})}, &Return{X: V("fl")})})
 		case 1:
 			out = append(out, &Rule{Kind: "BEGIN", Body: Blk(asg(V("fv"+tag), S("añb")), asg(V("fw"+tag), Arr(N("1"), N("2"))))})
+		case 2:
+			// literals that contain raw newlines (the lexer scans them to the closing delimiter)
+			out = append(out, &Rule{Kind: "BEGIN", Body: Blk(asg(V("ml"+tag), S("first line\nsecond line é\nthird")), asg(V("mr"+tag), &RegexLit{Pat: "a\nb"}))})
 		default:
 			out = append(out, &Rule{Kind: "END", Body: Blk(&ForIn{V: "fe", It: Arr(), Body: Blk(Pr(S("never")))})})
 		}
@@ -300,7 +303,7 @@ func init() {
 			if tier == "thorough" {
 				return 300000
 			}
-			return 12000
+			return 40000
 		},
 		Run:           c12Run,
 		MinConclusive: func(tier string) int { return 5000 },
